@@ -33,6 +33,8 @@ genview == <<st, nv, init, Len(hist)>>     \* export: one history per (state, de
 Op(op, a, n) == [op |-> op, a |-> a, n |-> n, fs |-> <<>>]
 Ops == {Op("open", m, 0) : m \in Modes}
        \cup {[op |-> "readm", a |-> "", n |-> 0, fs |-> f] : f \in MFmts}
+       \cup {Op(x, "long", 0) : x \in IF "long" \in Extra THEN {"readline", "readall", "readnum"} ELSE {}}
+       \cup {Op("calliter", "arg", 0) : x \in IF "iterarg" \in Extra THEN {1} ELSE {}}
        \cup {Op("read", "", n) : n \in RCounts}
        \cup {Op("read", c, 0) : c \in IF "rest" \in Extra THEN {"-1", "2^40"} ELSE {}}
        \cup {Op("write", "", n) : n \in WCounts}
@@ -147,14 +149,18 @@ F_c(n) == <<"c", n>>
 F_l == <<"l", 0>>
 F_n == <<"n", 0>>
 F_a == <<"a", 0>>
+F_ll == <<"l", 1>>     \* the long spellings "*line" "*number" "*all"
+F_nn == <<"n", 1>>
+F_aa == <<"a", 1>>
 MC_SmallFmts == {<<F_c(2), F_a>>, <<F_c(0), F_l, F_c(7)>>, <<F_n, F_c(1), F_a>>}
 MC_Atoms == {F_c(0), F_c(2), F_l, F_n, F_a}
 MC_MultiFmts == {<<x, y>> : x \in MC_Atoms, y \in MC_Atoms} \cup
                 {<<x, y, F_a>> : x \in MC_Atoms, y \in MC_Atoms} \cup
                 {<<F_c(2), F_c(1), x>> : x \in MC_Atoms} \cup
+                {<<F_ll, F_aa>>, <<F_aa, F_ll>>, <<F_nn, F_ll, F_aa>>, <<F_c(2), F_aa>>, <<F_ll, F_c(2)>>} \cup
                 {<<F_c(4096), F_c(1), F_a>>, <<F_c(5000), F_a>>, <<F_l, F_c(4096), F_l>>}
 MC_MultiLays == {<<"num", 4>>, <<"per", 37>>}
-MC_AllExtra == {"rest", "seek0", "seek1", "getiter", "calliter", "lines", "readline", "readall", "readnum", "flush", "close", "peek"}
+MC_AllExtra == {"long", "iterarg", "rest", "seek0", "seek1", "getiter", "calliter", "lines", "readline", "readall", "readnum", "flush", "close", "peek"}
 
 (* generation-only filter of the stream-buffer slices: once setvbuf gave a
    size b, only write sizes around b are exported (b-1, b, b+1, 2b+1, > 4096) *)
